@@ -20,9 +20,10 @@ package status
 //vc:ghost var chg map[string]bool
 
 //vc:spec func InvApprove(s status, hOK bool, tO int64, pO string) bool =
-//vc:   (hOK ==> s.Approve.Result == "OK" && s.Approve.Policy == pO && s.Approve.Time == tO) &&
+//vc:   (hOK ==> s.Approve.Result == "OK" && s.Approve.Policy == pO && s.Approve.Time == tO && pO != "") &&
 //vc:   (!hOK ==> s.Approve.Result != "OK" && s.Approve.Result != "WARNINGS")
 //vc:spec func InvCompare(s status, hOK bool, tO int64, hC bool, tC int64, pC string, ch bool) bool =
+//vc:   (hC ==> pC != "") &&
 //vc:   (hC && !ch ==> s.Compare.Result == "UPTODATE" && s.Compare.Policy == pC && s.Compare.Time == tC) &&
 //vc:   (hC && ch ==> s.Compare.Result == "DIFF" && 0 < s.Compare.Time && s.Compare.Time <= tC &&
 //vc:                  (hOK ==> (tO < s.Compare.Time <==> tO < tC))) &&
@@ -31,6 +32,13 @@ package status
 //vc:   0 < n && (hOK ==> 0 < tO && tO <= n) && (hC ==> 0 < tC && tC <= n) &&
 //vc:   (hOK && hC ==> tO != tC) && s.Approve.Time <= n && s.Compare.Time <= n && 0 <= s.Approve.Time &&
 //vc:   (s.Approve.Time == s.Compare.Time ==> s.Approve.Time == 0)
+
+// The invariant for every device (what the persistent status directory satisfies between runs).
+//vc:spec func InvAll(sf map[string]status, hO map[string]bool, tO map[string]int64, pO map[string]string, hC map[string]bool, tC map[string]int64, pC map[string]string, ch map[string]bool, n int64) bool =
+//vc:   forall d string :: InvApprove(sf[d], hO[d], tO[d], pO[d]) && InvCompare(sf[d], hO[d], tO[d], hC[d], tC[d], pC[d], ch[d]) && InvTimes(sf[d], hO[d], tO[d], hC[d], tC[d], n)
+
+// The status file is written by SetApprove and SetCompare only.
+//vc:only[C13] write in SetApprove, SetCompare
 
 //vc:func Read
 //vc:  trusted
@@ -43,6 +51,7 @@ package status
 //vc:  set statusFile = store(statusFile, device, v)
 
 //vc:func SetApprove
+//vc:  requires[C13] policy != ""
 //vc:  requires[C13] InvApprove(statusFile[device], hasOK[device], tOK[device], pOK[device])
 //vc:  requires[C13] InvCompare(statusFile[device], hasOK[device], tOK[device], hasCmp[device], tCmp[device], pCmp[device], chg[device])
 //vc:  requires[C13] InvTimes(statusFile[device], hasOK[device], tOK[device], hasCmp[device], tCmp[device], now)
@@ -58,6 +67,7 @@ package status
 //vc:  ensures[C09] @resultTruthful statusFile[device].Approve.Result == ite(failed, "FAILED", "OK")
 
 //vc:func SetCompare
+//vc:  requires[C13] policy != ""
 //vc:  requires[C13] InvApprove(statusFile[device], hasOK[device], tOK[device], pOK[device])
 //vc:  requires[C13] InvCompare(statusFile[device], hasOK[device], tOK[device], hasCmp[device], tCmp[device], pCmp[device], chg[device])
 //vc:  requires[C13] InvTimes(statusFile[device], hasOK[device], tOK[device], hasCmp[device], tCmp[device], now)
@@ -73,3 +83,9 @@ package status
 //vc:  ensures[C13] @otherDevicesUntouched forall d string :: d != device ==> statusFile[d] == old(statusFile[d])
 //vc:  ensures[C09] @diffSticky changed ==> statusFile[device].Compare.Result == "DIFF"
 //vc:  ensures[C09] @uptodateRecorded !changed ==> statusFile[device].Compare.Result == "UPTODATE"
+
+// Base case and damaged status file: the zero value with no observation on
+// record satisfies the invariant (environment step "status file replaced by
+// something that does not decode": file = zero value, observations forgotten).
+//vc:lemma[C13] statusInitialOrDamaged: forall n int64 :: n > 0 ==>
+//vc:   InvApprove(zero("status"), false, 0, "") && InvCompare(zero("status"), false, 0, false, 0, "", false) && InvTimes(zero("status"), false, 0, false, 0, n)
